@@ -110,7 +110,7 @@ func TestVerif_C02(t *testing.T) {
 	defer rep.Write()
 
 	w := c02Build()
-	depth := verifkit.N(3, 5)
+	depth := verifkit.N(3, 4)
 	starts := []string{"A1", "A3", "B3"}
 	var count int64
 	var rec func(prefix []int, start string)
@@ -170,7 +170,7 @@ func TestVerif_C02(t *testing.T) {
 	rep.Event("exhaustive_sequences", count)
 	rep.Note("bounded-exhaustive part: %d inputs, depth %d, 3 start blocks", len(w.ops), depth)
 
-	n := verifkit.N(3000, 200000)
+	n := verifkit.N(3000, 120000)
 	for ci := 0; ci < n; ci++ {
 		if !verifkit.Mine(ci) {
 			continue
@@ -212,7 +212,7 @@ func TestVerif_C02(t *testing.T) {
 func TestVerif_C02DS(t *testing.T) {
 	rep := verifkit.NewReport("C02")
 	defer rep.Write()
-	runDSProperty(t, "C02", rep, verifkit.N(150, 6000), verifkit.N(6, 100), true)
+	runDSProperty(t, "C02", rep, verifkit.N(150, 3000), verifkit.N(6, 40), true)
 }
 
 // C13 on the wire: window, byte accounting, once-per-connection and chain order of block requests
